@@ -32,7 +32,7 @@ func TestBoundedKDE(t *testing.T) {
 			fmt.Println("BOUNDED-FAIL " + s)
 		}
 	}
-	seed := uint64(2463534242)
+	seed := verifSeedC12(2463534242)
 	next := func() float64 {
 		seed ^= seed << 13
 		seed ^= seed >> 7
@@ -208,4 +208,16 @@ func TestBoundedKDE(t *testing.T) {
 		t.Fatalf("%d failures", nfail)
 	}
 	fmt.Printf("BOUNDED-OK cases=%d maxn=%d\n", cases, maxN)
+}
+
+// verifSeedC12 mixes VERIF_SEED (if set) into a generator's initial state, so that
+// different seeds explore different pseudo-random inputs; 0 keeps the default.
+func verifSeedC12(s uint64) uint64 {
+	if v, err := strconv.ParseUint(os.Getenv("VERIF_SEED"), 10, 64); err == nil && v != 0 {
+		s ^= v * 0x9E3779B97F4A7C15
+		if s == 0 {
+			s = 0x9E3779B97F4A7C15
+		}
+	}
+	return s
 }
